@@ -20,6 +20,8 @@ func lemma_C03_CP2(t uint8, t1 uint16, v1 []byte, t2 uint16, v2 []byte) {
 	x.ConfigurationAttribute.BuildConfigurationAttribute(t2, v2)
 	b, err := x.Marshal()
 	verifAssert(err == nil, "C03/CP/marshal-ok")
+	verifAssert(x.ConfigurationType == t && len(x.ConfigurationAttribute) == 2 && x.ConfigurationAttribute[0].Type == t1 && x.ConfigurationAttribute[1].Type == t2 &&
+		verifBytesEq(x.ConfigurationAttribute[0].Value, v1) && verifBytesEq(x.ConfigurationAttribute[1].Value, v2), "C20/CP/marshal-leaves-the-payload-unchanged")
 	n1 := len(v1)
 	verifAssert(len(b) == 12+n1+len(v2) && b[0] == t && b[1] == 0 && b[2] == 0 && b[3] == 0, "C05/CP/header-reserved-zero")
 	verifAssert(b[4] == byte(t1>>8) && b[5] == byte(t1) && int(b[6])<<8|int(b[7]) == n1 && verifBytesEq(b[8:8+n1], v1), "C05/CP/first-attribute-tlv")
@@ -293,6 +295,8 @@ func lemma_C03_SA_tv(num, proto uint8, id1, at, av, id2 uint16) {
 	p.IntegrityAlgorithm.BuildTransform(TypeIntegrityAlgorithm, id2, nil, nil, nil)
 	b, err := x.Marshal()
 	verifAssert(err == nil, "C03/SA/marshal-ok")
+	verifAssert(len(x.Proposals) == 1 && len(p.EncryptionAlgorithm) == 1 && len(p.IntegrityAlgorithm) == 1 && p.ProposalNumber == num && p.ProtocolID == proto &&
+		p.EncryptionAlgorithm[0].TransformID == id1 && p.EncryptionAlgorithm[0].AttributeType == at && p.EncryptionAlgorithm[0].AttributeValue == av && p.IntegrityAlgorithm[0].TransformID == id2, "C20/SA/marshal-leaves-the-payload-unchanged")
 	s := len(spi)
 	verifAssert(len(b) == 8+s+12+8, "C05/SA/total-length")
 	verifAssert(b[0] == 0 && b[1] == 0 && int(b[2])<<8|int(b[3]) == len(b) && b[4] == num && b[5] == proto && int(b[6]) == s && b[7] == 2 && verifBytesEq(b[8:8+s], spi), "C05/SA/proposal-header-last-marker-0")
